@@ -299,8 +299,10 @@ class Engine:
         return out
 
     # --- step E ---------------------------------------------------------------------
-    def shrink(self, m, want):
-        """Greedy shrinking while a mismatch of kind `want` persists."""
+    def shrink(self, m, want, sig=None):
+        """Greedy shrinking while a mismatch of kind `want` persists (and, when `sig` is given,
+        while the case keeps its signature: a shrink path must not wander into a different,
+        possibly known, failure)."""
         if not hasattr(self.mod, "shrink"):
             return m
         cur = m
@@ -310,6 +312,8 @@ class Engine:
                 break
             ms = self.evaluate(cands, record=False)
             ms = [x for x in ms if want in x.kinds]
+            if sig is not None and hasattr(self.mod, "classify"):
+                ms = [x for x in ms if self.mod.classify(x.case, x.impl, x.drv) == sig]
             if not ms:
                 break
             cur = min(ms, key=lambda x: len(json.dumps(x.case)))
@@ -346,7 +350,7 @@ class Engine:
         for m in spec_hits:
             groups.setdefault(sig_of(m), []).append(m)
         for sig, ms in sorted(groups.items()):
-            rep = self.shrink(min(ms, key=lambda x: len(json.dumps(x.case))), "spec")
+            rep = self.shrink(min(ms, key=lambda x: len(json.dumps(x.case))), "spec", sig)
             sig2 = sig_of(rep)
             k = next((e for e in known if e["signature"] in (sig, sig2)), None)
             if k is not None:
